@@ -54,6 +54,8 @@ def cases(draw, profile=None):
         c["noise"] = draw(st.sampled_from([0.002, 0.005, 0.02]))
     # a net-metered site that exports more than it consumes on every day: the whole usage series lies below zero (or straddles it)
     c["net_offset"] = draw(st.sampled_from([None, None, None, None, None, 1.3, 2.5, 0.6]))
+    # the model object was fitted to another site first (an object re-used in a loop): everything recorded afterwards is about this baseline
+    c["prefit"] = draw(st.sampled_from([None, None, None, "cold-large", "hot-small"]))
     return c
 
 
@@ -109,6 +111,22 @@ def judge(c, rec):
         else:
             data = em.DailyBaselineData(df, is_electricity_data=True)
             m = em.DailyModel(model="legacy") if prof == "legacy" else em.DailyModel()
+        if c.get("prefit"):
+            cold = c["prefit"] == "cold-large"
+            other = synth.daily_frame(n=360, tz=c["tz"], start_day=c["start_day"] + 3, noise_seed=c["seed"] + 77,
+                                      weather={"mean": 38 if cold else 78, "amp": 22 if cold else 10, "sd": 4, "south": c["south"]},
+                                      usage={"base": 60.0 if cold else 6.0, "hs": 2.5 if cold else 0.0, "hb": 55.0, "cs": 0.0 if cold else 0.6, "cb": 68.0},
+                                      noise=0.05, additive=0.0, weekend_shift=0.3 if cold else 0.0, season_shift=0.0)
+            if prof == "billing":
+                oi = other.index
+                ofirst = ~pd.Series(list(zip(oi.year, oi.month)), index=oi).duplicated()
+                omonths = other["observed"].groupby([oi.year, oi.month]).transform("sum")
+                ob = pd.DataFrame({"temperature": other["temperature"], "observed": np.nan}, index=oi)
+                ob.loc[ofirst.values, "observed"] = omonths[ofirst.values]
+                odata = em.BillingBaselineData(ob, is_electricity_data=True)
+            else:
+                odata = em.DailyBaselineData(other, is_electricity_data=True)
+            m.fit(odata, ignore_disqualification=True)
         m.fit(data, ignore_disqualification=True)
     doc = m.to_dict()
     dd = data.df
@@ -208,6 +226,20 @@ def judge(c, rec):
             stage = nm.split(":")[0]
             rec.violation("%s/curve-mismatch/%s/%s" % (K, stage, cause), c, "%s (%s): stored coefficients give fitted values off by %.3g (relative to 1+max); raw vector %s" % (
                 nm, comp.model_key, err, None if raw is None else [round(float(v), 4) for v in raw]))
+    # eval() is a function of each temperature by itself: the component's temperatures in calendar order (not sorted) give the same
+    # fitted value, uncertainty and load split for every day
+    for nm, comp in comps:
+        if len(comp.T) < 3:
+            continue
+        perm = np.random.default_rng(len(comp.T)).permutation(len(comp.T))
+        a, bq = comp.eval(comp.T), comp.eval(np.asarray(comp.T)[perm])
+        for j, part in enumerate(("model", "uncertainty", "heating load", "cooling load")):
+            x, y = np.asarray(a[j], float), np.asarray(bq[j], float)
+            if x.shape == y.shape and x.ndim == 1 and len(x) == len(perm) and not np.allclose(x[perm], y, rtol=1e-12, atol=1e-12 * (1 + float(np.max(np.abs(x)))), equal_nan=True):
+                i = int(np.argmax(np.abs(x[perm] - y)))
+                rec.violation(K + "/eval-depends-on-order", c, "%s: %s at T=%r is %r in sorted order and %r when the days come in another order" % (
+                    nm, part, float(np.asarray(comp.T)[perm][i]), float(x[perm][i]), float(y[i])))
+                break
     # the coefficients written to the document are the ones eval() uses: the reference curve of the JSON coefficients at the
     # component's own temperatures equals eval() (both are read-back paths; independent of the known clipping findings)
     for name, comp in m.model.items():
@@ -223,7 +255,7 @@ def judge(c, rec):
             rec.violation(K + "/kept-coefficients-differ-from-eval", c, "%s: JSON coefficients give %r at T=%r, the component's eval() %r (model_type %s)" % (
                 name, float(ref[i]), float(comp.T[i]), float(ev[i]), sm["coefficients"]["model_type"]))
     split = "__" in (m.best_combination or "")
-    cls = cls + ["step=%d" % bool(c.get("step")), "extreme-days=%d" % bool(c.get("extreme_days"))]
+    cls = cls + ["step=%d" % bool(c.get("step")), "extreme-days=%d" % bool(c.get("extreme_days")), "reused-object=%d" % bool(c.get("prefit"))]
     rec.case(c, bool(sloped or split or onbound), cls + ["split=%d" % split, "sloped=%d" % sloped])
 
 
